@@ -76,6 +76,9 @@ class SpecEval:
             return self.eng.ghost_get(self.st, f"global.{mod}.{n}", g[n])
         if n in R.ENUMS:
             return py(R.ENUMS[n])
+        owners = [m for m, gs in R.MODULE_GLOBALS.items() if n in gs]
+        if len(owners) == 1:       # a global of another module (contracts may mention the state their callees keep)
+            return self.eng.ghost_get(self.st, f"global.{owners[0]}.{n}", R.MODULE_GLOBALS[owners[0]][n])
         raise Unsupported(f"spec: unknown name {n}")
 
     def e_Attribute(self, node):
